@@ -604,10 +604,13 @@ LEVELS = {
             "bounded receiver x method x argument table (labelled bounded).",
             "modular effect (frame) analysis over the ast of the real classes + alias pairing by reflection; run-time "
             "contracts with read-only arrays as the bounded stand-in"),
-    "C08": ("proof", "Deductive proof (ghost isometry arrays per MPS object, quantified invariants) that 14 real MPS methods leave "
-            "a sound record for the object the caller keeps, for all lengths, sites and option kinds, and that canonical-form "
-            "consumers read local tensors only when the record lies inside them, relative to the QR/split leaf contracts; "
-            "threaded histories against the dense state are run-time contracts (labelled bounded).", _T_E1),
+    "C08": ("proof", "Deductive proof (ghost isometry arrays per MPS object, quantified invariants) that 48 real functions -- the "
+            "canonisation, sweep, swap and compression methods of MatrixProductState, every gate route (gate_split, auto-swap, "
+            "sub-MPO, non-local, the gate dispatcher), measure / sample_configuration / sample, the canonical-form consumers, "
+            "and the CircuitMPS / CircuitPermMPS / CircuitMPSLazy methods that thread the record -- leave a sound record for "
+            "the object the caller keeps (and never touch the record of an object the caller does not keep), for all lengths, "
+            "sites and option kinds, relative to the QR / split / 1D-compression leaf contracts; threaded histories against the "
+            "dense state are run-time contracts (labelled bounded).", _T_E1),
     "C16": ("proof", None, None),
     "C19": ("proof", "Deductive proof that the 18 ranking kernels of configcore.py are mutually inverse bijections between "
             "[0, sector size) and the sector with the right combinatorial size (67 lemmas: inductions as base/step pairs), for "
@@ -656,11 +659,17 @@ LEVELS.update({
             "run-time contract on bounded geometries.", _T_E1),
     "C09": ("other", "Proof core (label calculus): tensor_network_align, apply_op_vec, apply_op_op (all four which_A x which_B, "
             "renames only where the operator acts), partial_trace_to_mpo (row labels on the unconjugated layer), expec_TN_1D; "
-            "arithmetic, generators and every 1D compression method against dense linear algebra are run-time contracts on "
-            "bounded chains.", _T_E1),
+            "(sweep discipline) the flat compress / left_compress / right_compress family hands every bond of an open chain to a "
+            "compression call with exactly the caller's max_bond and cutoff and leaves the promised canonical form, for all "
+            "lengths and forms; arithmetic, generators and every 1D compression method against dense linear algebra are "
+            "run-time contracts on bounded chains.", _T_E1),
     "C10": ("other", "Proof core (label calculus): DMRG / DMRGX assemble <bra|H|ket> with the bra on the upper and the ket on the lower "
-            "labels and hand the eigensolver the effective operator with bra rows and ket columns; the variational claims "
-            "(energy of the returned state, bounds, monotonicity, caps) are run-time contracts on bounded chains.", _T_E1),
+            "labels and hand the eigensolver the effective operator with bra rows and ket columns; (sweep discipline, open "
+            "chains, symbolic length and block size) MovingEnvironment keeps its class invariant, every environment is read only "
+            "where it was stored, sweep visits exactly the positions 0..L-bsz with the state in the gauge the local problem "
+            "needs, sweep t receives item t of the bond and cutoff schedules (the last one repeating) and two-site updates end "
+            "within the cap; the variational claims (energy of the returned state, bounds, monotonicity) are run-time contracts "
+            "on bounded chains.", _T_E1),
     "C13": ("other", "Proof core (label calculus): make_reduced_density_matrix, partial_trace_exact and local_expectation_exact attach "
             "ket / bra labels and pair tensordot axes as sum rho[k,b] G[b,k] for any number of sites; every other route "
             "(canonical, environment, boundary, cluster, loop expansion) against the dense state is a run-time contract on "
@@ -669,6 +678,19 @@ LEVELS.update({
 
 
 LEVELS.update({
+    "C12": ("exploration", "Bounded run-time contracts decide the three clauses of the statement: every compressed contraction scheme "
+            "(2D / 3D boundary contraction from every side, in 13 / 7 sequences and every registered mode, row / column / "
+            "plaquette environments, HOTRG, CTMRG, coarse graining, compressed contraction of arbitrary graphs along several "
+            "trees, compress_all* and the arbitrary-geometry compressors) is run on small random networks (a) with max_bond above "
+            "every exact bond -- and with caps EQUAL to the exact bond size -- and cutoff=0, where the value / denoted tensor must "
+            "equal the exact contraction computed by numpy, and (b) with a small cap, where every bond handed back must be within "
+            "the cap; stored environments joined with the part they exclude must reproduce the whole. Proved in addition, for all "
+            "lattice sizes (E1 on _contract_boundary_core, the interleaved boundary sequence handler and the two direction "
+            "wrappers): the boundary bookkeeping -- every range handed on is the current boundary line and its inner neighbour "
+            "inside the current extent, opposing boundaries respect max_separation, the loop terminates, max_bond / cutoff / "
+            "compress_opts reach every compress call unchanged. That is bookkeeping, not one of the three clauses: the level "
+            "stays exploration.",
+            _T_E1 + " (bookkeeping only)"),
     "C20": ("other", "Proof core, structure-bounded (number of subsystems K <= 4, kraus_op K <= 3; all dimensions, thresholds and "
             "index values symbolic; ent_cross_matrix / projector / purify / the logneg_subsys renumbering loop for all sizes): "
             "24 functions of calc.py and the lazy partial-trace operators hand their callees the same physical subsystems, in "
